@@ -972,7 +972,7 @@ def build_obligations(part, lv, allt, names, seed, tier):
               ("milli", 1, 1000), ("centi", 1, 100), ("deci", 1, 10), ("deca", 10, 1), ("hecto", 100, 1), ("kilo", 1000, 1),
               ("mega", 10 ** 6, 1), ("giga", 10 ** 9, 1), ("tera", 10 ** 12, 1), ("peta", 10 ** 15, 1), ("exa", 10 ** 18, 1)]
         for nm, n, d in SI:
-            obs.append(Ob("ratio typedef %s" % nm, "ratio_typedef." + nm, 1, "c15::R_alias<etl::%s, std::%s>()" % (nm, nm), "ratio"))
+            obs.append(Ob(nm, "ratio_typedef." + nm, 1, "c15::R_alias<etl::%s, std::%s>()" % (nm, nm), "ratio"))
         rng = seeded(seed, "si")
         si_pairs = [(x, y) for x in SI for y in SI]
         some = set((x[0], y[0]) for x, y in rng.sample(si_pairs, 48 if tier == "quick" else len(si_pairs)))
